@@ -38,7 +38,10 @@ def norm(x):
     if isinstance(x, (np.timedelta64,)):
         if np.isnat(x):
             return NAT
-        return ('m', str(x))
+        try:
+            return ('m', int(x.astype('timedelta64[ns]').astype('int64')))  # one canonical unit: 24 days == 2073600000000000 ns
+        except Exception:
+            return ('m', str(x))
     if isinstance(x, (datetime.date, datetime.datetime)):
         return ('M', _dt_canon(np.datetime64(x)))
     if isinstance(x, (float, np.floating)):
